@@ -63,7 +63,8 @@ Record glob := Glob {
   clear_stamp : nat;                       (* last triggered=false store *)
   trig_stamp : nat;                        (* last triggered=true store *)
   rexit_stamp : nat;                       (* last load of triggered=true that ended the loop of a reset() *)
-  nact : nat                               (* number of activated=true stores *)
+  nact : nat;                              (* number of activated=true stores *)
+  ntfT : nat; ntfA : nat                   (* stamps of the last notify_all on cv_trigger / cv_active *)
 }.
 
 Definition O_ACT := 1. Definition O_TRIG := 2. Definition O_MT := 3. Definition O_MA := 4.
@@ -71,30 +72,23 @@ Definition O_CVT := 5. Definition O_CVA := 6.
 
 Definition b2z (b : bool) : Z := if b then 1 else 0.
 
-Definition tick g := Glob (activated g) (triggered g) (mT g) (mA g) (slT g) (slA g) (S (now g))
-  (act_stamp g) (act_clear g) (deact_stamp g) (clear_stamp g) (trig_stamp g) (rexit_stamp g) (nact g).
-Definition set_mT g m := Glob (activated g) (triggered g) m (mA g) (slT g) (slA g) (now g)
-  (act_stamp g) (act_clear g) (deact_stamp g) (clear_stamp g) (trig_stamp g) (rexit_stamp g) (nact g).
-Definition set_mA g m := Glob (activated g) (triggered g) (mT g) m (slT g) (slA g) (now g)
-  (act_stamp g) (act_clear g) (deact_stamp g) (clear_stamp g) (trig_stamp g) (rexit_stamp g) (nact g).
-Definition set_slT g s := Glob (activated g) (triggered g) (mT g) (mA g) s (slA g) (now g)
-  (act_stamp g) (act_clear g) (deact_stamp g) (clear_stamp g) (trig_stamp g) (rexit_stamp g) (nact g).
-Definition set_slA g s := Glob (activated g) (triggered g) (mT g) (mA g) (slT g) s (now g)
-  (act_stamp g) (act_clear g) (deact_stamp g) (clear_stamp g) (trig_stamp g) (rexit_stamp g) (nact g).
+Definition tick g := Glob (activated g) (triggered g) (mT g) (mA g) (slT g) (slA g) (S (now g)) (act_stamp g) (act_clear g) (deact_stamp g) (clear_stamp g) (trig_stamp g) (rexit_stamp g) (nact g) (ntfT g) (ntfA g).
+Definition set_mT g m := Glob (activated g) (triggered g) m (mA g) (slT g) (slA g) (now g) (act_stamp g) (act_clear g) (deact_stamp g) (clear_stamp g) (trig_stamp g) (rexit_stamp g) (nact g) (ntfT g) (ntfA g).
+Definition set_mA g m := Glob (activated g) (triggered g) (mT g) m (slT g) (slA g) (now g) (act_stamp g) (act_clear g) (deact_stamp g) (clear_stamp g) (trig_stamp g) (rexit_stamp g) (nact g) (ntfT g) (ntfA g).
+Definition set_slT g s := Glob (activated g) (triggered g) (mT g) (mA g) s (slA g) (now g) (act_stamp g) (act_clear g) (deact_stamp g) (clear_stamp g) (trig_stamp g) (rexit_stamp g) (nact g) (ntfT g) (ntfA g).
+Definition set_slA g s := Glob (activated g) (triggered g) (mT g) (mA g) (slT g) s (now g) (act_stamp g) (act_clear g) (deact_stamp g) (clear_stamp g) (trig_stamp g) (rexit_stamp g) (nact g) (ntfT g) (ntfA g).
 (* triggered = false, stamped *)
-Definition do_clear g := Glob (activated g) false (mT g) (mA g) (slT g) (slA g) (now g)
-  (act_stamp g) (act_clear g) (deact_stamp g) (now g) (trig_stamp g) (rexit_stamp g) (nact g).
+Definition do_clear g := Glob (activated g) false (mT g) (mA g) (slT g) (slA g) (now g) (act_stamp g) (act_clear g) (deact_stamp g) (now g) (trig_stamp g) (rexit_stamp g) (nact g) (ntfT g) (ntfA g).
 (* triggered = true, stamped *)
-Definition do_trig g := Glob (activated g) true (mT g) (mA g) (slT g) (slA g) (now g)
-  (act_stamp g) (act_clear g) (deact_stamp g) (clear_stamp g) (now g) (rexit_stamp g) (nact g).
+Definition do_trig g := Glob (activated g) true (mT g) (mA g) (slT g) (slA g) (now g) (act_stamp g) (act_clear g) (deact_stamp g) (clear_stamp g) (now g) (rexit_stamp g) (nact g) (ntfT g) (ntfA g).
 (* activated = true, stamped; [c] = stamp of this activate()'s clear *)
-Definition do_act g (c : nat) := Glob true (triggered g) (mT g) (mA g) (slT g) (slA g) (now g)
-  (now g) c (deact_stamp g) (clear_stamp g) (trig_stamp g) (rexit_stamp g) (S (nact g)).
+Definition do_act g (c : nat) := Glob true (triggered g) (mT g) (mA g) (slT g) (slA g) (now g) (now g) c (deact_stamp g) (clear_stamp g) (trig_stamp g) (rexit_stamp g) (S (nact g)) (ntfT g) (ntfA g).
 (* activated = false, stamped *)
-Definition do_deact g := Glob false (triggered g) (mT g) (mA g) (slT g) (slA g) (now g)
-  (act_stamp g) (act_clear g) (now g) (clear_stamp g) (trig_stamp g) (rexit_stamp g) (nact g).
-Definition do_rexit g := Glob (activated g) (triggered g) (mT g) (mA g) (slT g) (slA g) (now g)
-  (act_stamp g) (act_clear g) (deact_stamp g) (clear_stamp g) (trig_stamp g) (now g) (nact g).
+Definition do_deact g := Glob false (triggered g) (mT g) (mA g) (slT g) (slA g) (now g) (act_stamp g) (act_clear g) (now g) (clear_stamp g) (trig_stamp g) (rexit_stamp g) (nact g) (ntfT g) (ntfA g).
+Definition do_rexit g := Glob (activated g) (triggered g) (mT g) (mA g) (slT g) (slA g) (now g) (act_stamp g) (act_clear g) (deact_stamp g) (clear_stamp g) (trig_stamp g) (now g) (nact g) (ntfT g) (ntfA g).
+(* notify_all: nobody is left un-notified; stamped *)
+Definition do_ntfT g := Glob (activated g) (triggered g) (mT g) (mA g) [] (slA g) (now g) (act_stamp g) (act_clear g) (deact_stamp g) (clear_stamp g) (trig_stamp g) (rexit_stamp g) (nact g) (now g) (ntfA g).
+Definition do_ntfA g := Glob (activated g) (triggered g) (mT g) (mA g) (slT g) [] (now g) (act_stamp g) (act_clear g) (deact_stamp g) (clear_stamp g) (trig_stamp g) (rexit_stamp g) (nact g) (ntfT g) (now g).
 
 Definition ret_ev (v : Z) : ev := E K_RET 0 v.
 
@@ -136,7 +130,7 @@ Definition tstep (t c : nat) (g : glob) (l : loc) : option (glob * loc * list ev
   | A_unlockT => Some (tick (set_mT g None), goto A_lockA, [E K_UNLOCK O_MT 0])
   | A_lockA => lockA A_set
   | A_set => Some (tick (do_act g (myclr l)), goto A_notify, [ESC K_STORE O_ACT 1])
-  | A_notify => Some (tick (set_slA g []), goto A_unlockA, [E K_NOTIFY_ALL O_CVA 0])
+  | A_notify => Some (tick (do_ntfA g), goto A_unlockA, [E K_NOTIFY_ALL O_CVA 0])
   | A_unlockA => Some (tick (set_mA g None), goto Idle, [E K_UNLOCK O_MA 0; ret_ev 1])
   (* ---- trigger(): if (!activated.load()) return false;
           lock_guard lock(triggerLock); triggered.store(true); cv_trigger.notify_all(); return true; *)
@@ -149,7 +143,7 @@ Definition tstep (t c : nat) (g : glob) (l : loc) : option (glob * loc * list ev
          end
   | T_lock k => lockT (T_store k)
   | T_store k => Some (tick (do_trig g), goto (T_notify k), [ESC K_STORE O_TRIG 1])
-  | T_notify k => Some (tick (set_slT g []), goto (T_unlock k), [E K_NOTIFY_ALL O_CVT 0])
+  | T_notify k => Some (tick (do_ntfT g), goto (T_unlock k), [E K_NOTIFY_ALL O_CVT 0])
   | T_unlock k =>
     match k with
     | Top => Some (tick (set_mT g None), goto Idle, [E K_UNLOCK O_MT 0; ret_ev 1])
@@ -232,7 +226,7 @@ Definition tstep (t c : nat) (g : glob) (l : loc) : option (glob * loc * list ev
 Definition fin (l : loc) : bool := match at_ l, prog l with Idle, [] => true | _, _ => false end.
 
 Definition init (active : bool) (progs : list (list op)) : sys glob loc :=
-  Sys (Glob active false None None [] [] 1 0 0 0 0 0 0 0) (map (fun p => Loc p Idle 0 0 0 0) progs).
+  Sys (Glob active false None None [] [] 1 0 0 0 0 0 0 0 0 0) (map (fun p => Loc p Idle 0 0 0 0) progs).
 
 (* ---------- entry point of the correspondence check ---------- *)
 Fixpoint decode_prog (p : list (list Z)) : list op :=
